@@ -135,28 +135,32 @@ def coq_built():
     return os.path.exists(os.path.join(COQ, "Assembly.vo"))
 
 
-def coq_make(targets=None, timeout=1500):
+def coq_make(targets=None, timeout=1500, keep_going=False):
     """(Re)build the Coq development; returns (ok, log)."""
     if not os.path.exists(os.path.join(COQ, "Makefile")):
         run(["coq_makefile", "-f", "_CoqProject", "-o", "Makefile"], cwd=COQ, check=True)
-    rc, o, e = run(["make", "-j16"] + (targets or []), cwd=COQ, timeout=timeout)
+    rc, o, e = run(["make", "-j16"] + (["-k"] if keep_going else []) + (targets or []), cwd=COQ, timeout=timeout)
     return rc == 0, o + e
 
 
 _COQ_UP_TO_DATE = False
+_COQ_BUILD_LOG = ""
 
 
 def coqc_file(path, timeout=600):
     """Compile one .v file against the built development; returns (rc, output). The whole development is brought up to
     date first (once per process): a case file may import libraries the property's own theorem file does not depend on, and
     a library compiled against an older version of another one cannot be loaded next to it."""
-    global _COQ_UP_TO_DATE
+    global _COQ_UP_TO_DATE, _COQ_BUILD_LOG
     if not _COQ_UP_TO_DATE:
-        ok, out = coq_make()
-        if not ok:
-            return 1, "the development does not build: " + out[-2000:]
+        # make -k: a theorem file of ANOTHER property that no longer checks (a regenerated table such as Reserved_gen.v or
+        # Census_gen.v can break it) must not stand in the way of this property's libraries
+        ok, out = coq_make(keep_going=True)
+        _COQ_BUILD_LOG = "" if ok else out[-2000:]
         _COQ_UP_TO_DATE = True
     rc, o, e = run(["coqc", "-R", COQ, "Kessoku", path], cwd=os.path.dirname(path), timeout=timeout)
+    if rc != 0 and _COQ_BUILD_LOG:
+        return rc, "the development does not build completely: " + _COQ_BUILD_LOG + "\n" + o + e
     return rc, o + e
 
 
